@@ -98,11 +98,10 @@ def writeSelections (fmt : Format) (level : Nat) (m : SelMap) : Str :=
 
 mutual
 /-- `graphql_type_annotation_from_type_annotation(t).to_string()`; `none` = `.unwrap()` on a
-union without variants.  Note the `Plural` arm: a non-null list is printed without `!`
-(a `fix:` for this is in progress in /repo; when it lands the arm becomes `[91] ++ t ++ [93, 33]`). -/
+union without variants.  `Plural` is a non-null list and prints as `[T]!` (/repo e06371c). -/
 def gqlType : TypeAnn → Option Str
   | .scalar name => some (name ++ [33])
-  | .plural inner => (gqlType inner).map fun t => [91] ++ t ++ [93]
+  | .plural inner => (gqlType inner).map fun t => [91] ++ t ++ [93, 33]
   | .union nullable variants =>
     (gqlFirstVariant variants).map fun t => if nullable then t else t ++ [33]
 /-- the first variant of the union as a named / list type -/
